@@ -67,8 +67,17 @@ func checkBatch(t *testing.T, batch *metric.BrokerBatchRows, shards int32) {
 	if batch == nil || batch.Len() == 0 {
 		return
 	}
+	// production always applies a positive write window before routing (databaseChannel.Write ->
+	// EvictOutOfTimeRange; DatabaseOption.Default()/Validate() never leave it disabled). Fuzzed bytes
+	// can carry absurd timestamps (+-10^18 ms) that only an evicted row can have: apply a +-100 year
+	// window, evicted rows are not part of the partition.
+	const century = int64(100 * 365 * 24 * 3600 * 1000)
+	batch.EvictOutOfTimeRange(century, century)
 	want := map[string]int{}
 	for i := range batch.Rows() {
+		if batch.Rows()[i].IsOutOfTimeRange {
+			continue
+		}
 		c := readBrokerRow(&batch.Rows()[i])
 		checkAcceptedRow(t, c)
 		want[c.String()]++
@@ -83,6 +92,12 @@ func checkBatch(t *testing.T, batch *metric.BrokerBatchRows, shards int32) {
 			var chunk bytes.Buffer
 			var wrote []string
 			for i := range rows {
+				if rows[i].IsOutOfTimeRange {
+					if n, _ := rows[i].WriteTo(&bytes.Buffer{}); n != 0 {
+						t.Fatalf("evicted row is written (%d bytes)", n)
+					}
+					continue
+				}
 				c := readBrokerRow(&rows[i])
 				got[c.String()]++
 				if int32(sh) != jumpHash(c.TagsHash, shards) {
